@@ -27,7 +27,13 @@ TRAILING_GARBAGE = [") garbage", "foo", "'unterminated", "#$@ foo(b).", "garbage
                     "foo(a) :- ", ":- ", "]", "X", "42", "% comment without newline",
                     "foo(a)", "- ", "= ."]
 
+# characters that Unicode normalisation (NFC/NFKC) or case folding maps onto characters of the lexicon
+LOOKALIKE = {";": "\u037e", "K": "\u212a", ",": "\uff0c", "(": "\uff08", ")": "\uff09", ".": "\uff0e", "|": "\uff5c", "[": "\uff3b",
+             "]": "\uff3d", "A": "\uff21", "a": "\uff41", "0": "\uff10", "1": "\uff11", "-": "\uff0d", ":": "\uff1a", "!": "\uff01",
+             "_": "\uff3f", "'": "\uff07", "X": "\uff38", "=": "\uff1d"}
+
 KINDS = [
+    "lookalike",
     "tok_delete", "tok_insert", "tok_dup", "tok_swap", "trunc_boundary", "trunc_mid_token",
     "foreign_char", "unterminated_quote", "trailing_garbage", "drop_final_dot",
     "doubled_separator", "unbalanced_bracket", "char_delete", "char_replace",
@@ -91,6 +97,12 @@ def _one(kind, text, sp, rng):
             return None
         s, e, _, _ = rng.choice(long_toks)
         return text[:rng.randrange(s + 1, e)]
+    if kind == "lookalike":
+        pos = [i for i, ch in enumerate(text) if ch in LOOKALIKE]
+        if not pos:
+            return None
+        at = rng.choice(pos)
+        return text[:at] + LOOKALIKE[text[at]] + text[at + 1:]
     if kind == "foreign_char":
         at = rng.randrange(len(text) + 1)
         return text[:at] + rng.choice(FOREIGN_CHARS) + text[at:]
